@@ -3,11 +3,11 @@
    connection cannot touch another.  (Layer 2, the adapters' read loops on hostile bytes, and
    tungstenite's parser are exercised by the hostile-peer scenarios with a healthy canary
    connection beside them; the lifecycle theorem of C03 holds for ANY adapter answers.) *)
-From MIO Require Import Base Gen ListN Varint VarintProofs Decoder DecoderProofs ResId Driver DriverIso.
+From MIO Require Import Base Gen ListN Varint VarintProofs Decoder DecoderProofs ResId Driver DriverProofs DriverIso.
 Local Open Scope N_scope.
 
-Theorem C17_gen_obligation : varint_consts_ok = true.
-Proof. vm_compute. reflexivity. Qed.
+Theorem C17_gen_obligation : varint_consts_ok = true /\ layout_ok gen_layout = true.
+Proof. split; vm_compute; reflexivity. Qed.
 
 (* For ALL chunk lists over ALL byte values (no well-formedness assumed), in debug (checked) and
    release (wrapping) arithmetic: decode never panics and never runs out of fuel; it never
@@ -20,7 +20,7 @@ Theorem C17_decoder_total : forall (m : mode) (cs : list (list N)),
     (length stored <= length (concat cs))%nat /\
     parse stored = Some ([], stored) /\
     parse (concat cs) = Some (outs, stored).
-Proof. exact (decoder_total C17_gen_obligation). Qed.
+Proof. exact (decoder_total (proj1 C17_gen_obligation)). Qed.
 
 (* the two inputs that crashed the decoder before the fix: now plain results *)
 Example C17_former_witnesses :
@@ -39,6 +39,21 @@ Theorem C17_isolation : forall (s : dstate) (id : rid) (rd : readiness) (a : ans
   same_elsewhere id s (fst (process s id rd a)) /\ Forall (about id) (snd (process s id rd a)).
 Proof. exact isolation. Qed.
 
+(* The listener side, in every reachable state of the driver: whatever arrives at a listener -- any
+   number of inbound connections (hostile or not: they become pending entries with fresh ids), any
+   datagrams -- leaves the registry entry of every existing connection exactly as it was, leaves
+   the listeners as they were, and emits nothing but Message events of that listener.  (A pending
+   connection is announced only by its own Accepted, and only if its handshake succeeds: C03.) *)
+Theorem C17_listener_event_isolation : forall (a : N) (ls : list dlabel) (lid : rid) (items : list accepted),
+  a <= max_adapter gen_layout -> cost_labels ls + cost_accepts items <= max_base gen_layout + 1 ->
+  resource_type gen_layout lid = Local -> In lid (locals (fst (drun (dinit a) ls))) ->
+  Forall quiet_accept items ->
+  let s := fst (drun (dinit a) ls) in
+  (forall i p, find_remote i (remotes s) = Some p -> find_remote i (remotes (fst (do_accepts s lid items))) = Some p) /\
+  locals (fst (do_accepts s lid items)) = locals s /\
+  Forall (fun o => exists peer d, o = OEv (Message (lid, peer) d)) (snd (do_accepts s lid items)).
+Proof. exact (listener_event_isolation (proj2 C17_gen_obligation)). Qed.
+
 (* non-vacuity: a hostile answer (three chunks then Disconnected) on connection 5 while
    connection 261 exists: 261's entry is untouched, all four events are about 5 *)
 Example C17_isolation_example :
@@ -51,4 +66,5 @@ Proof. cbv zeta. split; [unfold quiet; cbn; repeat split; repeat constructor|]. 
 
 Print Assumptions C17_gen_obligation.
 Print Assumptions C17_isolation.
+Print Assumptions C17_listener_event_isolation.
 Print Assumptions C17_decoder_total.
